@@ -1,5 +1,6 @@
 SPECIFICATION Spec
-CONSTANT InnerFix = FALSE
+CONSTANT InnerFix = TRUE
+CONSTANT PerMinute = TRUE
 CONSTANT PartialChunkRaises = FALSE
 INVARIANT Report
 CHECK_DEADLOCK FALSE
